@@ -59,6 +59,9 @@ PROBES += ['| a [[b | c]] d | e]] |\n|---|---|\n| [[x | y | z]] |\n| p \\| q | `
 # ordered item that does not start at 1, a lone tag), followed by documents that look ahead / read a table at the same line index
 PROBES += ['intro\n    left | right\n|---|---|\n| 1 | 2 |\n', 'intro\n2. left | right\n|---|:-:|\n| 3 | 4 |\n',
            'intro\n<span title="a|b">\n|---|---|\n| 5 | 6 |\n', 'first line\nx | y\n', 'zero\none | two\n|---|---|\n| 7 | 8 |\n\nend\n']
+# an empty item that is the last of its list because the next marker is of another type, then lists that are loose only
+# through such an item followed by one of the same type (a parse buffer shared between items would carry the first verdict over)
+PROBES += ['- x\n-\n\n* y\n\n1. x\n2.\n\n3) y\n', '* a\n*\n\n* c\n\n1. a\n2.\n\n3. c\n\n> -\n>\n> - q\n']
 PROBES += _same_string_probes('/q?a=1&region=eu&copy', 'Q&A &copy 2020 \\* &amp', 1)
 PROBES += _same_string_probes('/p?b=2&sect=9&reg', 'R&D &reg 1999 \\_ &lt', -1)
 
